@@ -39,17 +39,62 @@ let count_reg (reg : registry) : string =
       List.iter (fun (k, _) -> incr n; if int_of_n (shard_for k) <> i then bad := true) sh) reg;
   if !bad then "BADSHARD" else "n" ^ string_of_int !n
 
-let run_seq (toks : string list) : string =
+(* The shard a tuple lands in is an implementation choice (any function of the tuple into 0..15 gives
+   the same observable behaviour, theorem C17_refines_flat_spec).  The implementation's answer is
+   accepted when it is in range and the same every time the tuple is asked about in this case;
+   otherwise the model's own value is printed with a '!' so that the lines differ. *)
+let run_seq (toks : string list) (impl : string list) : string =
+  let seen = Hashtbl.create 8 in
+  let impl = Array.of_list impl in
   let rec go reg toks acc =
     match toks with
     | [] -> List.rev acc
     | _ ->
       let (o, rest) = parse_op toks in
+      let pos = List.length acc in
       (match o with
        | POp op -> let (reg', r) = reg_step reg op in go reg' rest (show_ret r :: acc)
-       | PShard k -> go reg rest (("s" ^ string_of_int (int_of_n (shard_for k))) :: acc)
+       | PShard k ->
+         let mine = "s" ^ string_of_int (int_of_n (shard_for k)) in
+         let theirs = if pos < Array.length impl then impl.(pos) else "" in
+         let ok =
+           String.length theirs >= 2 && theirs.[0] = 's' &&
+           (match int_of_string_opt (String.sub theirs 1 (String.length theirs - 1)) with
+            | Some i -> i >= 0 && i < 16 | None -> false) &&
+           (match Hashtbl.find_opt seen (show_key k) with Some prev -> prev = theirs | None -> true) in
+         if ok then (Hashtbl.replace seen (show_key k) theirs; go reg rest (theirs :: acc))
+         else go reg rest ((mine ^ "!") :: acc)
        | PMake (s, c, m) -> go reg rest (("k:" ^ show_key (make_tuple_key (n_of_int s) (n_of_int c) m)) :: acc)
        | PCount -> go reg rest (count_reg reg :: acc)) in
+  ignore impl;
+  match go new_registry toks [] with
+  | [] -> "empty"
+  | l -> String.concat " " l
+
+(* ---- the callers (ipoe claimTuple/releaseTuple, pppoe addToIndexes/removeFromIndexes) ---- *)
+let run_callers (self : bytes) (toks : string list) : string =
+  let rec go reg toks acc =
+    match toks with
+    | [] -> List.rev acc
+    | ("C" | "R" as kind) :: s :: c :: m :: sid :: mixed :: rest ->
+      let s = n_of_int (int_of_string s) and c = n_of_int (int_of_string c) in
+      let m = bytes_of_hex m and sid = bytes_of_hex sid and mixed = (mixed = "1") in
+      if kind = "C" then begin
+        let (reg', evs) = caller_claim self mixed reg s c m sid in
+        let txt = String.concat "," (List.map (fun (sd, k) -> hex_of_bytes sd ^ "@" ^ show_key k) evs) in
+        go reg' rest (("ev[" ^ txt ^ "]") :: acc)
+      end else go (caller_release self mixed reg s c m sid) rest ("ok" :: acc)
+    | "x" :: k :: p :: sd :: rest ->
+      let k = key_of_tok k in
+      let (reg', r) = reg_step reg (OClaim (k, { o_proto = bytes_of_hex p; o_sid = bytes_of_hex sd; o_key = k })) in
+      go reg' rest (show_ret r :: acc)
+    | "y" :: k :: p :: sd :: rest ->
+      let k = key_of_tok k in
+      let (reg', r) = reg_step reg (ORelease (k, { o_proto = bytes_of_hex p; o_sid = bytes_of_hex sd; o_key = k })) in
+      go reg' rest (show_ret r :: acc)
+    | "l" :: k :: rest ->
+      let (reg', r) = reg_step reg (OLookup (key_of_tok k)) in go reg' rest (show_ret r :: acc)
+    | t :: _ -> failwith ("bad caller op " ^ t) in
   match go new_registry toks [] with
   | [] -> "empty"
   | l -> String.concat " " l
@@ -184,10 +229,21 @@ let () =
         try
           match tokens line with
           | [] -> "empty"
-          | "seq" :: rest -> run_seq rest
+          | "ipoe" :: rest -> run_callers proto_ipoe rest
+          | "pppoe" :: rest -> run_callers proto_pppoe rest
+          | "seq" :: rest -> run_seq rest (if idx < Array.length impl then tokens impl.(idx) else [])
           | ("conc" | "rconc") :: rest ->
-            if idx < Array.length impl then check_conc (parse_conc rest) impl.(idx)
-            else "NOIMPL"
+            if idx < Array.length impl then begin
+              let progs = parse_conc rest in
+              (* one or more repetitions of the scenario, separated by '|' *)
+              let hs = List.map String.trim (String.split_on_char '|' impl.(idx)) in
+              let rec go i = function
+                | [] -> impl.(idx)
+                | h :: r ->
+                  let v = check_conc progs h in
+                  if v = h then go (i + 1) r else Printf.sprintf "%s rep=%d history=[%s]" v i h in
+              go 0 hs
+            end else "NOIMPL"
           | _ -> "badline"
         with Failure why -> "MODELERR " ^ why | Not_found -> "MODELERR notfound" in
       print_endline out) lines
